@@ -7,7 +7,7 @@ M = C.M
 R = M + "regex::"
 E = M + "entry::"
 META = {
-    "explanation": "R1 whole-string API (contract O2): RegexMatcher::matches returns onig::Regex::is_match on WalkEntry::path() through identity conversions; no other onig match entry point (find/search/captures/match_with_options) in regex.rs; "
+    "explanation": "R1 whole-string API (contracts O2, O3): RegexMatcher::matches returns match_with_param(path, at 0, no options) == Ok(Some(path.len())) on WalkEntry::path() through identity conversions; no panicking onig match entry point (is_match/find/search/captures/match_with_options) in regex.rs; a failed match is diagnosed and sets the exit status; "
                    "R2 end-of-text requirement inside the pattern (contract O1): onig's match-at-0 commits to the first alternative that succeeds and is_match only compares that result's length with the text — alternation order then decides the verdict — so the string compiled by Regex::with_options must carry a per-syntax end anchor around the whole user pattern; a raw user pattern is a violation; "
                    "R3 tables: -regextype names -> RegexType (emacs, grep, posix-basic = ed = sed, posix-extended, anything else rejected, default emacs) and RegexType -> onig Syntax constructor (one distinct syntax per type), -iregex <-> IGNORECASE; "
                    "R4 positional state: the regex type read by -regex/-iregex and written by -regextype lives in storage shared by all recursion levels of the expression parser (reached through a parameter), so a -regextype before or inside a parenthesis governs what follows",
@@ -30,19 +30,59 @@ def run(ctx):
             if n in ("new", "with_options", "with_options_and_encoding", "with_encoding"):
                 continue
             n_match += 1
-            ctx.ob("R1", "match-api:%s@%s" % (n, prim.short(f.path)), n == "is_match",
-                   "-regex matching calls onig::Regex::%s in %s; only is_match is the whole-string test (contract O2); a hand-made length comparison on match_with_options/find counts bytes vs chars and accepts prefixes" % (n, f.path), fn=f, where=prim.site(f, b), how="who-may-call")
+            ctx.ob("R1", "match-api:%s@%s" % (n, prim.short(f.path)), n == "match_with_param",
+                   "-regex matching calls onig::Regex::%s in %s; oracle match_with_param, the entry point that returns a match failure (retry-limit-in-match over on a pathological pattern) as Err — is_match/match_with_options/find/captures/search panic on it (contract O3) — and whose Ok(Some(n)) is the byte length matched from the start (contract O2)" % (n, f.path), fn=f, where=prim.site(f, b), how="who-may-call")
     ctx.floor("R1", "onig match calls in regex.rs", n_match, 1)
     mf = ctx.fn("R1", C.matcher_impl(R + "RegexMatcher", "matches"))
     if mf is not None:
         o = prim.origin_of_local(mf, 0).strip()
-        ok = o.k == "call" and o.a["callee"] == "onig::Regex::is_match"
-        desc = o.fmt()
+        alts = [a.strip() for a in prim.flatten_phi(o)]
+        eqs = [a for a in alts if a.k == "call" and a.a["name"] == "eq"]
+        rest = [a for a in alts if a not in eqs]
+        ok = len(eqs) == 1 and all(a.k == "const" and a.a.get("v") in (False, 0) for a in rest)
+        desc = o.fmt()[:500]
         if ok:
-            recv, subj = o.kids[0].strip(), o.kids[1]
-            bad = c07.non_identity(subj)
-            ok = recv.k == "field" and recv.a == "regex" and not bad and [c.a["callee"] for c in subj.call_nodes() if c.a["callee"].startswith(M)] == [E + "WalkEntry::path"]
-        ctx.ob("R1", "verdict=is_match(path)", ok, "RegexMatcher::matches = %s; oracle self.regex.is_match(entry.path() as text) — the path -print prints" % desc, fn=mf, how="provenance slice + allow-list")
+            mcalls = [c for c in eqs[0].call_nodes() if c.a["callee"] == "onig::Regex::match_with_param"]
+            ok = len(mcalls) == 1
+        if ok:
+            mc = mcalls[0]
+            recv, subj, at, opts, region = [k for k in mc.kids[:5]]
+            recv = recv.strip()
+            path_ok = lambda x: not c07.non_identity(x) and [c.a["callee"] for c in x.call_nodes() if c.a["callee"].startswith(M)] == [E + "WalkEntry::path"]
+            ok = recv.k == "field" and recv.a == "regex" and path_ok(subj)
+            ok = ok and at.strip().k == "const" and at.strip().a.get("v") == 0 and opts.strip().k == "const" and opts.strip().a.get("v") == 0
+            ok = ok and region.strip().k == "agg" and str(region.strip().a).endswith("None")
+            # the verdict on success: Ok payload == Some(byte length of the same text)
+            l, r = [k.strip() for k in eqs[0].kids]
+            def is_payload(x):
+                return any(y.k == "variant" and str(y.a) == "Ok" for y in x.walk()) and any(c is mc for c in x.call_nodes()) and not any(c.a["name"] not in ("match_with_param", "as_ref", "to_string_lossy", "path", "default", "deref") for c in x.call_nodes())
+            def is_len(x):
+                names = [c.a["name"] for c in x.call_nodes()]
+                return x.k == "agg" and str(x.a).endswith("Some") and names[:1] == ["len"] and path_ok(x.kids[0].strip().kids[0]) and not any(y.k == "bin" for y in x.walk())
+            ok = ok and ((is_payload(l) and is_len(r)) or (is_payload(r) and is_len(l)))
+        ctx.ob("R1", "verdict=whole-path-match", ok, "RegexMatcher::matches = %s; oracle: match_with_param(self.regex, entry.path() as text, at 0, no options, no region) == Ok(Some(text.len())), false otherwise — the path -print prints, matched from its first to its last byte" % desc, fn=mf, how="provenance slice + allow-list")
+        # a failed match is diagnosed: stderr + exit status, entry not matched
+        def role(t):
+            if t.callee == "onig::Regex::match_with_param":
+                return "match"
+            if t.callee == "std::io::_eprint":
+                return "diag"
+            if (t.callee or "").endswith("MatcherIO::<'_>::set_exit_code") or t.j.get("callee_name") == "set_exit_code":
+                return "status"
+            return None
+        g = C.G(prim.event_graph(mf, role))
+        ms = g.nodes("match")
+        ok = len(ms) == 1
+        if ok:
+            err = g.succ(ms[0], "1")
+            ok = bool(err) and all(C.base(x) == "diag" for x in err) and all(C.base(y) == "status" for x in err for y in g.succ(x)) and all(str(z) == "RET(const:False)" for x in err for y in g.succ(x) for z in g.succ(y))
+            okb = g.succ(ms[0], "0")
+            ok = ok and bool(okb) and all(str(x).startswith("RET(") for x in okb)
+        ctx.ob("R1", "match-failure-diagnosed", ok, "when the match fails (Err) the entry is reported on stderr, the exit status set, and the verdict false; a successful match has no side effect; events: %s" % g.fmt()[:400], fn=mf, how="event graph")
+        for b, t in mf.calls():
+            if t.j.get("callee_name") == "set_exit_code":
+                v = prim.origin_of_operand(mf, t.args[1]).strip()
+                ctx.ob("R1", "failure-status-nonzero", v.k == "const" and v.a.get("v") not in (0, None), "set_exit_code(%s)" % v.fmt(), fn=mf, where=prim.site(mf, b), how="constant operand", nontrivial=False)
     # ---- R2 / R3 compile --------------------------------------------------------------------------------------
     nf = ctx.fn("R2", R + "RegexMatcher::new")
     if nf is not None:
